@@ -11,7 +11,7 @@ RULE = ("programs biased to textually identical gate statements in different sco
         "scope must not change the meaning of the remaining statements. Monitors: GateMemoizer.get hits (a run without cache hits "
         "is inconclusive). non-trivial = program has a name collision or a twin; distinct = S-expression")
 ASSUMPTIONS = ["lexical binding rules as implemented in core_from_sx: parameters shadow header names inside the macro body only"]
-TIERS = {"quick": {"shards": 8, "budget_s": 100}, "thorough": {"shards": 16, "budget_s": 360}}
+TIERS = {"quick": {"shards": 8, "budget_s": 200}, "thorough": {"shards": 16, "budget_s": 360}}
 REQUIRE = {"legality-twin-builds": 2000, "macro-bodies-analysed-in-call-site-scope": 300, "alias-fill-in-results-read-back-by-name": 1000, "used-qubit-analyses-compared": 3000, "route:builder": 300, "judged-after-shifted-twin": 500, "route:text-native": 1000, "override-of-shadowed-name": 300, "route:build-lists": 300, "route:text": 300, "memo-hits": 500, "memo-hits-across-scopes": 50, "shadowing-programs": 300, "twin-programs": 300,
            "metamorphic-pairs": 200}
 
